@@ -241,7 +241,21 @@ type CheckPremiumAmount struct {
 	next Action
 }
 
+// premiumBelowMinusAmount reports whether amount+premium would be negative
+// (GetClaimAmount / GetOpeningTXAmount would wrap around).
+func premiumBelowMinusAmount(amount uint64, premium int64) bool {
+	return premium < 0 && amount < 1<<63 && premium < -int64(amount)
+}
+
 func (v *CheckPremiumAmount) Execute(services *SwapServices, swap *SwapData) EventType {
+	if swap.SwapInAgreement != nil && swap.SwapInRequest != nil &&
+		premiumBelowMinusAmount(swap.SwapInRequest.Amount, swap.SwapInAgreement.Premium) {
+		return swap.HandleError(fmt.Errorf("premium %d is below minus the swap amount", swap.SwapInAgreement.Premium))
+	}
+	if swap.SwapOutAgreement != nil && swap.SwapOutRequest != nil &&
+		premiumBelowMinusAmount(swap.SwapOutRequest.Amount, swap.SwapOutAgreement.Premium) {
+		return swap.HandleError(fmt.Errorf("premium %d is below minus the swap amount", swap.SwapOutAgreement.Premium))
+	}
 	if swap.SwapInAgreement != nil {
 		if swap.SwapInAgreement.Premium > swap.SwapInRequest.PremiumLimit {
 			return swap.HandleError(fmt.Errorf("premium amt too high: %d, limit : %d",
